@@ -5,4 +5,6 @@ MODULES = [
     "specs.coords",
     "specs.datatypes",
     "specs.vault",
+    "specs.xpath",
+    "specs.typed",
 ]
